@@ -55,7 +55,10 @@ CONSTANTS CKeys, CVals,      \* keys / values
           NCompactions,      \* compactions of the compactor
           NRotates,          \* rotations by the rotator
           Procs,             \* subset of {"w", "f", "c", "k", "r", "d"}
-          Guard287,          \* TRUE: register_tables checks that the memtables still exist
+          Guard287,          \* register_tables' stale-flush guard: "id" = skip when one of the
+                             \* collected memtables is gone (the code); mutants used to derive
+                             \* schedules that need the guard: "count" = compare counts only,
+                             \* "none" = no guard
           SplitW,            \* TRUE: allocating the seqno and inserting are two steps
           CScripted          \* TRUE: "c" is an ordinary compaction (concurrent with "c2"),
                              \* FALSE: a major compaction (exclusive)
@@ -151,7 +154,8 @@ F3 ==
     /\ LET sv   == Latest(st)
            l    == loc["f"]
            gone == \E m \in Range(l.ids) : m \notin Range(sv.sealed)
-       IN IF Guard287 /\ gone
+           fewer == Len(sv.sealed) < Len(l.ids)
+       IN IF (Guard287 = "id" /\ gone) \/ (Guard287 = "count" /\ fewer)
           THEN st' = st       \* the tables written stay unregistered
           ELSE LET out == l.out
                    T2  == IF out = <<>> THEN st.tbl ELSE st.tbl @@ (l.tid :> [e |-> out, g |-> 0])
